@@ -66,9 +66,9 @@ ASSUMPTIONS = [
     "framed by operator symbols; missing operands are proved at token level and at string level for an operator "
     "before or after the text of a well-formed expression (right operand, left operand, trailing sign), and for a "
     "dangling operator inside any number of nested parentheses / one-argument calls at the start or after such a "
-    "prefix (C01_reject_missing_operand_in_call, ..._nested, ..._after_prefix); other positions (two adjacent "
-    "operators in the middle, a wrong-arity call inside another call, anything inside a two-argument call) are "
-    "correspondence-checked",
+    "prefix (C01_reject_missing_operand_in_call, ..._nested, ..._after_prefix), likewise a wrong-arity call inside "
+    "nested one-argument calls (C01_reject_arity_nested, ..._after_prefix); other positions (two adjacent "
+    "operators in the middle, anything malformed inside a two-argument call) are correspondence-checked",
 ]
 EXPLANATION = ("theorems (all unbounded, over the regenerated tables): solve(render blanks e) = eval e for every "
                "well-formed e, every blank placement and every atom algebra with neg(neg a)=a (character level: "
@@ -424,7 +424,10 @@ def general_position_texts(rng, asts, n):
             else:
                 f = rng.choice(list(L.F2_SYM.values()))
                 args = rng.choice([[txt(a)], [txt(a), txt(b), txt(c)]])
-            out.append(prefix + f + ",".join(args) + ")" + rest)
+            call = f + ",".join(args) + ")"
+            for _ in range(rng.choice([0, 0, 0, 1, 2, 4])):      # nested one-argument calls / parentheses
+                call = rng.choice(list(L.F1_SYM.values())) + sp() + call + sp() + ")"
+            out.append(prefix + call + rest)
         else:
             f = rng.choice(list(L.F1_SYM.values()))
             inner = txt(a) + sp() + rng.choice(ops) + sp()
